@@ -649,6 +649,162 @@ func c08(c *Ctx) {
 		r.Check("stddev:site", n == 1, ft.Pos(), fmt.Sprintf("%d non-constant StdDev stores", n))
 	})
 
+	c.Rule("C08.R7", "totals: the reported Sum / SumSquares are the totals over all values (the last prefix sum, or an accumulator over the values) and Mean = Sum / count - not a value carried out of the percentile loop", 3, func(r *Rule) {
+		if ft == nil {
+			r.Unresolved("Flush")
+			return
+		}
+		isValues := func(v ssa.Value) bool {
+			for {
+				sl, ok := v.(*ssa.Slice)
+				if !ok {
+					break
+				}
+				v = sl.X // a sub-slice of the values still holds values
+			}
+			return strings.HasSuffix(pathOf(v), ".Values") || strings.HasSuffix(pathOf(ptrOrigin(v)), ".Values")
+		}
+		// an element of the values: values[i] or the range value over (a sub-slice of) the values
+		isElem := func(x ssa.Value) bool {
+			x = ptrOrigin(x)
+			if l, ok := x.(*ssa.UnOp); ok && l.Op == token.MUL {
+				if a, ok := l.X.(*ssa.IndexAddr); ok && isValues(a.X) {
+					return true
+				}
+			}
+			if ex, ok := x.(*ssa.Extract); ok {
+				if nx, ok := ex.Tuple.(*ssa.Next); ok {
+					if rg, ok := nx.Iter.(*ssa.Range); ok && isValues(rg.X) {
+						return true
+					}
+				}
+			}
+			return false
+		}
+		isCount := func(v ssa.Value) bool {
+			lc, ok := stripConv(ptrOrigin(v)).(*ssa.Call)
+			return ok && isCall(lc, "builtin len") && isValues(lc.Call.Args[0])
+		}
+		// total(v, sq): v is the sum over all values of x (sq=false) or x*x (sq=true)
+		total := func(v ssa.Value, sq bool) (bool, string) {
+			v = ptrOrigin(v)
+			if ld, ok := v.(*ssa.UnOp); ok && ld.Op == token.MUL {
+				ia, ok := ld.X.(*ssa.IndexAddr)
+				if !ok {
+					return false, "not an element of a prefix-sum slice: " + exprString(v, 0)
+				}
+				if _, isMk := ptrOrigin(ia.X).(*ssa.MakeSlice); !isMk {
+					return false, "the slice is not a local prefix-sum slice: " + pathOf(ia.X)
+				}
+				idx := asBinOp(ia.Index, token.SUB)
+				if idx == nil || !isCount(idx.X) {
+					return false, "the index is not len(values)-1: " + exprString(ia.Index, 0)
+				}
+				if k, isC := constInt(idx.Y); !isC || k != 1 {
+					return false, "the index is not len(values)-1: " + exprString(ia.Index, 0)
+				}
+				// the slice holds prefix sums of x (resp. x*x): some store S[i] = term + S[i-1] (either order)
+				okTerm := false
+				for _, g := range []*ssa.Function{ft} {
+					eachInstr(g, func(in ssa.Instruction) {
+						st, ok := in.(*ssa.Store)
+						if !ok {
+							return
+						}
+						da, ok := st.Addr.(*ssa.IndexAddr)
+						if !ok || ptrOrigin(da.X) != ptrOrigin(ia.X) {
+							return
+						}
+						add := asBinOp(st.Val, token.ADD)
+						if add == nil {
+							return
+						}
+						for _, pair := range [][2]ssa.Value{{add.X, add.Y}, {add.Y, add.X}} {
+							term, prev := pair[0], pair[1]
+							pl, ok := prev.(*ssa.UnOp)
+							if !ok || pl.Op != token.MUL {
+								continue
+							}
+							pa, ok := pl.X.(*ssa.IndexAddr)
+							if !ok || ptrOrigin(pa.X) != ptrOrigin(ia.X) {
+								continue
+							}
+							elem := isElem
+							if !sq && elem(term) {
+								okTerm = true
+							}
+							if m := asBinOp(term, token.MUL); sq && m != nil && elem(m.X) && elem(m.Y) {
+								okTerm = true
+							}
+						}
+					})
+				}
+				if !okTerm {
+					return false, "the slice is not filled with prefix sums of the values"
+				}
+				return true, "the last prefix sum"
+			}
+			if acc, ok := v.(*ssa.Phi); ok {
+				for _, e := range acc.Edges {
+					add := asBinOp(e, token.ADD)
+					if add == nil || add.X != ssa.Value(acc) {
+						continue
+					}
+					elem := isElem
+					if !sq && elem(add.Y) {
+						return true, "an accumulator over the values"
+					}
+					if m := asBinOp(add.Y, token.MUL); sq && m != nil && elem(m.X) && elem(m.Y) && m.X == m.Y {
+						return true, "an accumulator over the squares"
+					}
+				}
+				return false, "carried around a loop that does not accumulate the values: " + exprString(v, 0)
+			}
+			return false, "neither the last prefix sum nor an accumulator: " + exprString(v, 0)
+		}
+		nonConst := func(field string) []*ssa.Store {
+			var out []*ssa.Store
+			for _, st := range fieldStores(ft, "Timer", field) {
+				if k, isC := st.Val.(*ssa.Const); isC && k.Value != nil {
+					continue
+				}
+				out = append(out, st)
+			}
+			return out
+		}
+		var sumVals []ssa.Value
+		for _, f := range []struct {
+			name string
+			sq   bool
+		}{{"Sum", false}, {"SumSquares", true}} {
+			sts := nonConst(f.name)
+			r.Check("totals:"+f.name+":site", len(sts) == 1, ft.Pos(), fmt.Sprintf("%d non-constant stores of Timer.%s", len(sts), f.name))
+			for _, st := range sts {
+				ok, why := total(st.Val, f.sq)
+				r.Check("totals:"+f.name, ok, st.Pos(), "Timer."+f.name+" is "+why)
+				if !f.sq {
+					sumVals = append(sumVals, ptrOrigin(st.Val))
+				}
+			}
+		}
+		for _, st := range nonConst("Mean") {
+			q := asBinOp(ptrOrigin(st.Val), token.QUO)
+			ok := false
+			if q != nil && isCount(q.Y) {
+				if t, _ := total(q.X, false); t {
+					ok = true
+				}
+				// Timer.Sum read back (its own store is checked above)
+				if ld, isLd := ptrOrigin(q.X).(*ssa.UnOp); isLd && ld.Op == token.MUL {
+					if t, f, _, isF := fieldRef(ld.X); isF && t == "Timer" && f == "Sum" {
+						ok = true
+					}
+				}
+			}
+			r.Check("totals:Mean", ok, st.Pos(), "Timer.Mean = (sum of all values) / float64(len(values))")
+		}
+	})
+
 	c.Rule("C08.R5", "count and rates: count = int(round(sampled count)), per-second = sampled count / interval seconds, counter rate = value / interval seconds; values are sorted before indexing", 6, func(r *Rule) {
 		if fl == nil || ft == nil {
 			r.Unresolved("Flush")
